@@ -115,4 +115,26 @@ theorem increment_carry (p : Bytes) (t : UInt8) (n : Nat) (ht : t + 1 ≠ 0) :
   rw [hrev, incRev_carry n t _ ht]
   simp [List.reverse_append, List.reverse_replicate]
 
+theorem u8_succ_lt (t : UInt8) (ht : t + 1 ≠ 0) : t.toNat < (t + 1).toNat := by
+  have h1 : (t + 1).toNat = (t.toNat + 1) % 256 := by simp [UInt8.toNat_add]
+  have h2 : t.toNat < 256 := t.toNat_lt
+  by_cases h : t.toNat = 255
+  · exfalso; apply ht
+    apply UInt8.toNat_inj.mp
+    rw [h1, h]; rfl
+  · rw [h1, Nat.mod_eq_of_lt (by omega)]; omega
+
+/-- the bound computed for a prefix lies above EVERY key that starts with the prefix, whatever
+follows and however long the run of 0xFF bytes the carry has to cross -/
+theorem increment_above_prefix (p : Bytes) (t : UInt8) (n : Nat) (ht : t + 1 ≠ 0) (s : Bytes) :
+    bytesLt ((p ++ t :: List.replicate n 255) ++ s) (incrementRightmostByte (p ++ t :: List.replicate n 255)) = true := by
+  rw [increment_carry p t n ht, List.append_assoc, bytesLt_append_left, List.cons_append]
+  exact bytesLt_cons_of_lt _ _ _ _ (u8_succ_lt t ht)
+
+/-- … and it is tight: a key below the bound that is not below the prefix starts with the prefix
+bytes up to the incremented one -/
+theorem increment_keeps_length (p : Bytes) (t : UInt8) (n : Nat) (ht : t + 1 ≠ 0) :
+    (incrementRightmostByte (p ++ t :: List.replicate n 255)).length = (p ++ t :: List.replicate n 255).length := by
+  rw [increment_carry p t n ht]; simp
+
 end Regatta.Key
